@@ -95,7 +95,10 @@ Start == /\ phase = "built"
                      announced |-> IF enabled \/ AnnounceRule = "always" THEN 1 .. nports ELSE {}]
          /\ UNCHANGED <<desc, max, enabled, res, nports>>
 
-Answers(c) == IF c = "discover" THEN 1 .. nports ELSE {}
+(* a discovery request is a JSON object whose member "SECoP" is "discover" - bare ("discover") or with any   *)
+(* other members next to it ("discover_extra"): both must be answered                                        *)
+Requests == {"discover", "discover_extra"}
+Answers(c) == IF c \in Requests THEN 1 .. nports ELSE {}
 Recv(c) == /\ phase = "running" /\ alive
            /\ alive' = (c \in Contained)
            /\ \E a \in (IF c \in Loose THEN {{}, 1 .. nports} ELSE {Answers(c)}) :
@@ -135,6 +138,6 @@ FastIsAllowed == phase = "input" => \A sl \in {0, 4} :
 AnnounceBounded == (last.kind = "start" /\ last.announced # {}) => last.len <= max
 Alive == phase = "running" => alive
 AnswerIffDiscover == last.kind = "dgram" =>
-    /\ last.cls \notin Loose => (last.answers # {} <=> (last.cls = "discover" /\ nports > 0))
+    /\ last.cls \notin Loose => (last.answers # {} <=> (last.cls \in Requests /\ nports > 0))
     /\ last.answers \in {{}, 1 .. nports}
 =============================================================================
